@@ -598,13 +598,22 @@ impl Srv {
                     .iter()
                     .map(|m| {
                         let id = u(m, "id");
-                        let headers = m.get("hdr").and_then(|h| h.as_u64()).filter(|n| *n > 0).map(|n| {
+                        let mut headers = m.get("hdr").and_then(|h| h.as_u64()).filter(|n| *n > 0).map(|n| {
                             let mut h = HashMap::new();
                             for i in 0..n {
                                 h.insert(HeaderKey::new(&format!("k{i}")).unwrap(), HeaderValue::from_uint64(id + i).unwrap());
                             }
                             h
                         });
+                        // explicit headers: [key, kind code, value bytes in hex]
+                        if let Some(list) = m.get("headers").and_then(|h| h.as_array()) {
+                            let mut h = HashMap::new();
+                            for e in list {
+                                let kind = iggy::models::header::HeaderKind::from_code(e[1].as_u64().unwrap() as u8).unwrap();
+                                h.insert(HeaderKey::new(e[0].as_str().unwrap()).unwrap(), HeaderValue { kind, value: Bytes::from(unhex(e[2].as_str().unwrap())) });
+                            }
+                            headers = Some(h);
+                        }
                         Message::new(Some(id as u128), Bytes::from(payload_for(id, u(m, "len") as usize)), headers)
                     })
                     .collect();
@@ -624,7 +633,28 @@ impl Srv {
                 let strategy = Self::strategy_of(op);
                 let part = op.get("partition").and_then(|v| v.as_u64()).map(|v| v as u32);
                 match c.poll_messages(&stream, &topic, part, &consumer, &strategy, u(op, "count") as u32, op.get("auto_commit").and_then(|v| v.as_bool()).unwrap_or(false)).await {
-                    Ok(p) => Self::polled_json(&p),
+                    Ok(p) => {
+                        let mut v = Self::polled_json(&p);
+                        if op.get("full").and_then(|x| x.as_bool()).unwrap_or(false) {
+                            // every field of every message as the client decoded it
+                            let full: Vec<Value> = p
+                                .messages
+                                .iter()
+                                .map(|m| {
+                                    let mut hdrs: Vec<(String, u8, String)> = m
+                                        .headers
+                                        .as_ref()
+                                        .map(|h| h.iter().map(|(k, v)| (k.as_str().to_string(), v.kind.as_code(), hexs(&v.value))).collect())
+                                        .unwrap_or_default();
+                                    hdrs.sort();
+                                    json!({"o": m.offset, "id": m.id.to_string(), "state": m.state.as_code(), "ts": m.timestamp, "checksum": m.checksum,
+                                        "payload": hexs(&m.payload), "hdrs": hdrs})
+                                })
+                                .collect();
+                            v["full"] = json!(full);
+                        }
+                        v
+                    }
                     Err(e) => err_json(&e),
                 }
             }
@@ -891,4 +921,12 @@ pub async fn main() {
         println!("{}", r);
     }
     let _ = std::fs::remove_dir_all(&dir);
+}
+
+fn hexs(b: &[u8]) -> String {
+    b.iter().map(|x| format!("{:02x}", x)).collect()
+}
+
+fn unhex(s: &str) -> Vec<u8> {
+    (0..s.len() / 2).map(|i| u8::from_str_radix(&s[2 * i..2 * i + 2], 16).unwrap()).collect()
 }
